@@ -201,6 +201,192 @@ def gen_oracle_cases(rng, n_mps, n_ttns):
     return cases
 
 
+
+# ------------------------------------------------------------------------------- trace correspondence
+def gen_trace_cases(rng, n_mps, n_ttns):
+    cases = [c for c in gen_oracle_cases(rng, n_mps, n_ttns) if not c.get("model", "").startswith("dense_b")][8:]
+    for c in cases:
+        nb = (c["n"] if c["kind"] == "mps" else len(c["parents"])) + 1
+        r = rng.random()
+        cfg = c["cfg"]
+        if r < 0.3:
+            cfg.pop("max_dims", None)
+            cfg["temp"] = [rng.randint(1, 6) for _ in range(nb)]
+        elif r < 0.6 and cfg["crit"] != "threshold":
+            cfg.pop("temp", None)
+            cfg["max_dims"] = [rng.randint(1, 6) for _ in range(nb)]
+    return cases
+
+
+def qlit(pq):
+    return "(Qmake (%d) %d)" % (pq[0], pq[1])
+
+
+def zlist(xs):
+    return "[" + "; ".join("(%d)" % x for x in xs) + "]"
+
+
+def coq_temp(t):
+    if t is None:
+        return "TNone"
+    if isinstance(t, list):
+        return "(TList %s)" % zlist(t)
+    return "(TInt (%d))" % t
+
+
+def coq_tree(t):
+    return "(Node %d [%s])" % (t[0], "; ".join(coq_tree(c) for c in t[1]))
+
+
+TRACE_HDR = ("From Coq Require Import QArith ZArith List Bool.\nImport ListNotations.\n"
+             "From RV Require Import Model.Trunc Gen.Trunc.\nClose Scope Q_scope.\nLocal Open Scope Z_scope.\n"
+             "Definition lk (l : list (nat * Z)) (c : nat) (d : Z) : Z :=\n"
+             "  match find (fun p => Nat.eqb (fst p) c) l with Some p => snd p | None => d end.\n")
+
+
+def trace_steps(t):
+    """implementation side, canonical form.  chain: [(idx, m, reads)], tree: [(parent, child, m, reads) | (-1, child, -1, [])]"""
+    steps = []
+    sig = {}
+    ev = t["events"]
+    prev_read = 0
+    pending = None
+    for e in ev:
+        if e["ev"] == "update":
+            steps.append((e["idx"], e["m"], t["reads"][prev_read:e["nread"]]))
+            sig[e["idx"]] = e["sigma"]
+            prev_read = e["nread"]
+        elif e["ev"] == "node":
+            pending = e
+            prev_read = e["nread"]
+        elif e["ev"] == "trunc":
+            steps.append((pending["parent"], pending["child"], e["m"], t["reads"][prev_read:e["nread"]]))
+            sig[pending["child"]] = e["sigma"]
+            prev_read = e["nread"]
+        elif e["ev"] == "push":
+            steps.append((-1, e["child"], -1, []))
+    return steps, sig
+
+
+def trace_term(t, sig):
+    old = "None" if t["old_max_dims"] is None else "(Some %s)" % zlist(t["old_max_dims"])
+    crit = COQ_CRIT[t["crit"]]
+    sp_items = "; ".join("((%d), [%s])" % (k, "; ".join(qlit(x) for x in v)) for k, v in sorted(sig.items()))
+    if t["kind"] == "mps":
+        n = t["n"]
+        return ("Eval vm_compute in (let cc := mk_config %s %s (compress_max_dims %s %s (%d) %d) in\n"
+                "  let sp := fun idx => lookupQ idx [%s] in\n"
+                "  compress_trace cc %d %s %s sp ++ [(-7)] ++ compress_dims cc %d %s %s sp %s).\n"
+                % (crit, qlit(t["thr"]), crit, old, t["M"], n, sp_items, n, "true" if t["to_right"] else "false", coq_temp(t["temp"]),
+                   n, "true" if t["to_right"] else "false", coq_temp(t["temp"]), zlist(t["dims_before"])))
+    nn = len(t["dims_before"])
+    pushes = "; ".join("(%d%%nat, (%d))" % (e["child"], e["after"]) for e in t["events"] if e["ev"] == "push")
+    return ("Eval vm_compute in (let cc := mk_config %s %s (tree_max_dims %s %s (%d) %d) in\n"
+            "  let sp := fun c : nat => lookupQ (Z.of_nat c) [%s] in\n"
+            "  let tr := %s in\n"
+            "  tree_compress_trace cc %s sp tr ++ [(-7)] ++\n"
+            "  map (fun c => tree_compress_dims cc %s sp (lk [%s]) tr (fun c => nth c %s 0) c) (seq 0 %d)).\n"
+            % (crit, qlit(t["thr"]), crit, old, t["M"], nn, sp_items, coq_tree(t["tree"]), coq_temp(t["temp"]), coq_temp(t["temp"]),
+               pushes, zlist(t["dims_before"]), nn))
+
+
+def trace_phase(ctx, cases):
+    """returns (compared, bad, stats)"""
+    per = 25
+    chunks = [cases[i:i + per] for i in range(0, len(cases), per)]
+    res = ctx.impl_par("c05_trace.py", [{"cases": ch} for ch in chunks], timeout=600)
+    traces = []
+    bad = []
+    stats = {"mps": 0, "ttns": 0, "skipped": 0, "near_tie_or_tiny": 0, "with_temp_list": 0, "with_per_bond_list": 0, "steps": 0}
+    for rc, r, out in res:
+        if r is None:
+            bad.append({"what": "trace script failed", "out": out[-800:]})
+            continue
+        traces += r["traces"]
+    usable = []
+    for t in traces:
+        if t.get("skipped"):
+            stats["skipped"] += 1
+            continue
+        if t.get("error"):
+            bad.append({"what": "compress raised under the loggers", "case": t["case"], "error": t["error"]})
+            continue
+        steps, sig = trace_steps(t)
+        thr = Fraction(*t["thr"])
+        skip = False
+        for k, v in sig.items():
+            fr = [Fraction(p, q) for p, q in v]
+            if any(q > 2 ** 160 for p, q in v) or (t["temp"] is None and t["crit"] != "fixed" and near_tie(fr, thr)):
+                skip = True
+        if skip:
+            stats["near_tie_or_tiny"] += 1
+            continue
+        usable.append((t, steps, sig))
+    files = []
+    for i in range(0, len(usable), 20):
+        files.append(("trace_%d" % (i // 20), TRACE_HDR + "".join(trace_term(t, sig) for t, _, sig in usable[i:i + 20])))
+    evs = ctx.coq_eval_many(files) if files else {}
+    compared = 0
+    for fi, (name, _) in enumerate(files):
+        rc, out = evs[name]
+        lists = common.parse_Z_lists(out) if rc == 0 else None
+        group = usable[fi * 20:(fi + 1) * 20]
+        if lists is None or len(lists) != len(group):
+            bad.append({"what": "generated schedule could not be evaluated", "file": name, "out": out[-800:]})
+            continue
+        for (t, steps, sig), vals in zip(group, lists):
+            k = vals.index(-7) if -7 in vals else None
+            if k is None or k % 3 != 0:
+                bad.append({"what": "unparsable model trace", "case": t["case"]})
+                continue
+            model_steps = [tuple(vals[j:j + 3]) for j in range(0, k, 3)]
+            model_dims = vals[k + 1:]
+            compared += 1
+            stats[t["kind"]] += 1
+            stats["steps"] += len(steps)
+            if isinstance(t["temp"], list):
+                stats["with_temp_list"] += 1
+            elif t["temp"] is None and t["old_max_dims"] is not None:
+                stats["with_per_bond_list"] += 1
+            if t["kind"] == "mps":
+                impl_seq = [(s[0], s[1]) for s in steps]
+                mod_seq = [(a, c) for a, b, c in model_steps]
+                reads_ok = all((not s[2]) or s[2] == [ms[1]] for s, ms in zip(steps, model_steps))
+            else:
+                impl_seq = [(s[0], s[1], s[2]) for s in steps]
+                mod_seq = list(model_steps)
+                reads_ok = all((not s[3]) or s[3] == [s[1]] for s in steps)
+                for e in t["events"]:
+                    if e["ev"] == "push" and e["after"] > e["before"]:
+                        bad.append({"what": "witness invalid: push_cano_to_parent grew a bond", "case": t["case"], "event": e})
+            if impl_seq != mod_seq:
+                bad.append({"what": "executed schedule / kept counts differ from the generated schedule", "case": t["case"],
+                            "impl": impl_seq, "model": mod_seq})
+            elif not reads_ok:
+                bad.append({"what": "limit entry read differs from the bond being cut", "case": t["case"],
+                            "impl_reads": [s[-1] for s in steps], "model": model_steps})
+            elif model_dims != t["dims_after"]:
+                bad.append({"what": "bond dimensions after compress differ from the generated bookkeeping", "case": t["case"],
+                            "impl": t["dims_after"], "model": model_dims})
+    return compared, bad, stats
+
+
+def failing_lemma(log):
+    import re
+    m = re.search(r'File "\./(Proofs/TruncProofs\.v)", line (\d+)', log or "")
+    if not m:
+        return "a lemma"
+    try:
+        lines = open(os.path.join(common.COQ, m.group(1))).read().splitlines()[:int(m.group(2))]
+    except Exception:
+        return "a lemma"
+    for ln in reversed(lines):
+        mm = re.match(r"\s*(?:Lemma|Theorem|Corollary)\s+([A-Za-z0-9_']+)", ln)
+        if mm:
+            return "lemma `%s`" % mm.group(1)
+    return "a lemma"
+
+
 def embed(script, call):
     """self-contained python snippet: the impl script's source + a call of its replay()"""
     src = open(os.path.join(common.VERIF, "harness", "impl", script)).read()
@@ -217,13 +403,14 @@ def run(ctx):
     ctx.trusted += [
         "translator tx/trunc.py (python ast -> Gallina over Q; fail-closed; sigma_i/||sigma|| > thr rendered root-free as sigma_i^2 > thr^2*sum sigma^2, valid for sigma>=0, thr>0; nan (zero norm) modelled as 'compares False')",
         "correspondence harness/c05.py + harness/impl/c05_count.py: CompressConfig.compute_m_trunc of the real code vs the generated Gallina evaluated by vm_compute on the same rational cases (exact; near-ties within 1e-9 are not generated, exact ties only where the float norm is exact)",
-        "hand-written bookkeeping models of the chain sweep / compress_recursion (Model/Trunc.v) are tied to the code only through the dense oracle (bond dimensions after compress), not by translation",
+        "sweep schedules (iter_idx_list, compress loop + temp_m_trunc branch, _update_ms cut bond, compress_node, compress_recursion, set_bonddim) are translated by tx/trunc.py; the reshape position of m_trunc in _update_ms, the bond_dims convention and node_idx[child] are read by verbatim pattern match (translator aborts on any change)",
+        "trace correspondence harness/impl/c05_trace.py: loggers wrapped around svd_qn / compute_m_trunc / set_bonddim / _update_ms / compress_node / truncate_tensors / push_cano_to_parent and logging limit containers; compared exactly with compress_trace / compress_dims / tree_compress_trace / tree_compress_dims under vm_compute (QR result dimensions passed as witness, validity after<=before checked)",
         "modelled, not verified: binary64 rounding in the comparison and in LAPACK's SVD; that svd_qn returns a descending, non-negative spectrum and a valid SVD (checked per run by the oracle: descending, first cut = dense spectrum)",
-        "NOT proved (C05_bounds_partial): interlacing of singular values under one-sided contractions and the Eckart-Young bound; both inequalities of the property are checked numerically against dense SVDs on every run",
+        "NOT proved: Ky Fan's maximum principle (explicit hypothesis ky_fan_principle of C05_bounds_partial, from which both spectral inequalities are derived for chains) and the tensor-product instantiation of the projector classes; both inequalities of the property are checked numerically against dense SVDs on every run (chains and trees)",
     ]
     ctx.assumptions += [
         "C05_error_identity / C05_nested_projection_pythagoras: nesting hypothesis  P_j psi_k = psi_k (j<k) -- satisfied by a one-directional sweep over a canonical chain (notes/C05.md), NOT by the tree sweep (error identity is not claimed for trees; measured gap reported)",
-        "C05_bounds_partial: per-step interlacing |d_k|^2 <= D_k is a hypothesis",
+        "C05_bounds_partial / C05_left_projection_discard_partial / C05_eckart_young_partial: Ky Fan's maximum principle (K. Fan, PNAS 35 (1949) 652; Bhatia, Matrix Analysis, Problem I.6.15; Horn & Johnson 2nd ed. Cor. 4.3.39) is a hypothesis; further non-spectral hypotheses: projector_class, step projector is a member and keeps the top-m weight, left-block projectors commute with right-acting ones",
         "C05_tree_dims_after_compress: economic QR in push_cano_to_parent never increases the bond dimension (qr_dim c d <= d)",
     ]
     # 1. translator
@@ -250,7 +437,7 @@ def run(ctx):
                 broken.append("theorem(s) of Props/C05.v: " + ", ".join(o["name"] for o in ctx.obligations if not o["ok"]))
         else:
             ctx.obligations.append({"name": "C05 (build of Gen/Trunc.v + Proofs/TruncProofs.v)", "file": "Proofs/TruncProofs.v", "ok": False, "assumptions": None})
-            broken.append("proofs about the generated rules (Proofs/TruncProofs.v no longer compiles against Gen/Trunc.v)" if ok_gen
+            broken.append(("proofs about the generated definitions: %s of Proofs/TruncProofs.v no longer holds for Gen/Trunc.v" % failing_lemma(log)) if ok_gen
                           else "generated Gen/Trunc.v does not compile")
     phases["translate+coq build+props"] = round(time.time() - t0, 1)
     # 2. correspondence on kept counts
@@ -321,6 +508,14 @@ def run(ctx):
     if corr_bad:
         broken.append("correspondence compute_m_trunc (impl) vs generated Gallina")
     phases["kept-count correspondence"] = round(time.time() - t0 - sum(phases.values()), 1)
+    # 2b. trace correspondence: executed schedule of compress() vs the generated schedule
+    tr_compared, tr_bad, tr_stats = (0, [], {})
+    if ok_gen:
+        tr_compared, tr_bad, tr_stats = trace_phase(ctx, gen_trace_cases(ctx.rng, *((150, 70) if quick else (1500, 700))))
+        if tr_bad:
+            broken.append("trace correspondence compress()/compress_recursion vs generated schedule")
+    ev += tr_compared
+    phases["trace correspondence"] = round(time.time() - t0 - sum(phases.values()), 1)
     # 3. dense oracle on the real code: always
     n_mps, n_ttns = (600, 220) if quick else (6000, 2000)
     ocases = (json.load(open(CORPUS)).get("oracle", []) if os.path.exists(CORPUS) else []) + gen_oracle_cases(ctx.rng, n_mps, n_ttns)
@@ -362,7 +557,9 @@ def run(ctx):
     phases["dense oracle"] = round(time.time() - t0 - sum(phases.values()), 1)
     ctx.notes.append("wall time by phase (s): %s" % json.dumps(phases))
     # 4. reporting
+    ctx.notes.append("trace correspondence: %s" % json.dumps(tr_stats, sort_keys=True))
     detail_common = {"coq_log_tail": log[-1500:] if isinstance(log, str) and broken else "", "correspondence": corr_bad[:5],
+                     "trace_correspondence": tr_bad[:4],
                      "oracle_crash": o_crash}
     found_any = False
     prio = ["exception", "no state kept", "m outside [0, len]", "m exceeds the limit of the cut bond", "bond dimension exceeds limit",
@@ -394,9 +591,9 @@ def run(ctx):
     ctx.notes.append("oracle: %s" % json.dumps(o_stat, sort_keys=True))
     ctx.notes.append("tree sweep is not a nested projection sequence: max |dist^2 - sum of step discards| over the tree cases = %.3g (informational; the chain identity is checked to 1e-8)" % o_stat["tree_identity_gap_max"])
     return {"evaluations": ev + o_stat["mps"] + o_stat["ttns"],
-            "distinct_nontrivial": len(nontriv) + o_stat["truncating"],
-            "rule": "kept-count correspondence: a case counts when impl and generated model agree AND it truncates (m < len sigma) or is an exact tie / zero-norm case, distinct by (criterion, threshold, limits, sigma, idx, left) [%d of %d]; oracle: a compress call counts when it discards weight (sum_b D_b > 1e-14 |psi|^2) [%d of %d]"
-                    % (len(nontriv), ev, o_stat["truncating"], o_stat["mps"] + o_stat["ttns"]),
+            "distinct_nontrivial": len(nontriv) + o_stat["truncating"] + tr_compared,
+            "rule": "kept-count correspondence: a case counts when impl and generated model agree AND it truncates (m < len sigma) or is an exact tie / zero-norm case, distinct by (criterion, threshold, limits, sigma, idx, left) [%d of %d]; oracle: a compress call counts when it discards weight (sum_b D_b > 1e-14 |psi|^2) [%d of %d]; trace: every compress() call whose logged schedule (site/node order, limit entry read, kept count per step, final dimensions) was compared exactly with the generated schedule [%d]"
+                    % (len(nontriv), ev - tr_compared, o_stat["truncating"], o_stat["mps"] + o_stat["ttns"], tr_compared),
             "samples": samples[:3], "exhaustive": False,
-            "input_distribution": {"kept_count_cases_by_kind_and_criterion": hist, "oracle": o_stat,
+            "input_distribution": {"kept_count_cases_by_kind_and_criterion": hist, "oracle": o_stat, "trace": tr_stats,
                                    "translator_preconditions": info["preconditions"] if info else None}}
